@@ -16,6 +16,7 @@ class SymEval:
         self.stop = set(stop)
         self.depth = 0
         self.atoms = False  # treat abs/real/imag/log/exp/conj of a polynomial as an opaque atom
+        self.opaque_calls = False  # with atoms: any other call becomes an opaque symbol of its evaluated arguments
 
     def sym(self, e):
         return P.s(astq.src(e, 60).replace(" ", ""))
@@ -97,6 +98,12 @@ class SymEval:
                     v = self.ev(e.args[0])
                     if v is not None:
                         return P.s(f"{short}[{v!r}]")
+                if self.opaque_calls:
+                    parts = []
+                    for a in e.args:
+                        v = self.ev(a)
+                        parts.append(repr(v) if v is not None else astq.src(a, 60).replace(" ", ""))
+                    return P.s(f"{nm.split('.')[-1]}[{','.join(parts)}]")
             return None
         if isinstance(e, ast.Subscript):
             if isinstance(e.value, ast.Attribute) and e.value.attr == "shape":
